@@ -411,7 +411,7 @@ def product_rules(chk, repo, clause='C06-d'):
         sl = [e for e in p.calls('extent.intersection_slices')]
         sh = [e for e in p.calls('extent.intersection_shift')]
         if len(bc) != 1 or len(ex) != 2 or len(sl) != 1 or len(sh) != 1:
-            okm, det = False, 'expected _mul_broadcast, two array_extent, intersection_slices and intersection_shift calls'
+            nn -= 1         # written some other way: no structural verdict (the reference comparison decides)
             continue
         B = [nf.index(bc[0].result, C(i)) for i in range(4)]
         good = ex[0].bound['shape'] == nf.attr(B[0], 'shape') and ex[0].bound['shift'] == B[1] and \
@@ -424,7 +424,8 @@ def product_rules(chk, repo, clause='C06-d'):
         if not good:
             okm, det = False, f'product {fmt(data)} at offset {fmt(off)} is not built from the intersection of the broadcast extents'
     chk.ob(clause, 'D-flow', fm.key, 'product = overlapping parts of the broadcast operands at the intersection shift',
-           okm and nn > 0, det, fm.loc())
+           (okm and nn > 0) if nn else None, det or ('' if nn else 'the overlap is not taken through intersection_slices / '
+                                                     'intersection_shift: decided by the reference comparison below'), fm.loc())
     product_by_reference(chk, repo, clause)
 
 
@@ -496,13 +497,24 @@ def disjoint_rules(chk, repo):
             if a is not None and is_app(a, 'call:extent.intersect'):
                 return pol
         return None
+    def recursive(p_):
+        return isinstance(p_.ret, Poly) and p_.ret.single_atom() is not None and is_app(p_.ret.single_atom(), 'call:field._disjoint')
     inloop = [p for p in rets if intersect_truth(p) is True]
+    if not inloop and any(recursive(p) for p in rets):
+        # the pair test is not a branch condition of this function (a generator / next() picks the pair): the paths that
+        # merge and start over are the ones that return the recursive call
+        inloop = [p for p in rets if recursive(p)]
+        guarded = None
+    else:
+        guarded = True
     final = [p for p in rets if p not in inloop]
-    ok_rec = bool(inloop) and all(isinstance(p.ret, Poly) and p.ret.single_atom() is not None and
-                                  is_app(p.ret.single_atom(), 'call:field._disjoint') for p in inloop)
+    ok_rec = bool(inloop) and all(recursive(p) for p in inloop)
+    if ok_rec and guarded is None:
+        ok_rec = None
     chk.ob('C06-f', 'structural', fd.key, 'an intersecting pair is merged and the scan restarts', ok_rec,
            'return inside the pair loop is the recursive call guarded by intersect(...)' if ok_rec else
-           'the pair loop does not restart after merging an intersecting pair', fd.loc())
+           ('the merge restarts the scan; how the touching pair is selected is not a branch condition (undecided)' if ok_rec is None else
+            'the pair loop does not restart after merging an intersecting pair'), fd.loc())
     # the merged group's extent must be recomputed from the group *after* the new members joined it
     ok_ord, n_ord, det_ord = True, 0, ''
     for p in inloop:
@@ -525,13 +537,20 @@ def disjoint_rules(chk, repo):
             good = same_list and e_st.data.get('value') == e_b.data.get('result')
             if not good:
                 det_ord = f'boundary({fmt(arg)[:80]}) after extending {fmt(e_ext.target)[:80]}'
+        elif not ext or not bnd or not st:
+            # one of the three steps is not visible as such on this path: no verdict
+            det_ord = f'undecided: {len(ext)} group extension(s), {len(bnd)} boundary call(s), {len(st)} extent store(s) on the merging path'
+            ok_ord = None if ok_ord is not False else ok_ord
+            continue
         else:
             det_ord = f'{len(ext)} group extension(s), {len(bnd)} boundary call(s), {len(st)} extent store(s) on the merging path'
-        ok_ord = ok_ord and good
-    chk.ob('C06-f', 'D-order', fd.key, 'group extent = boundary(group) computed after the group was extended', ok_ord and n_ord > 0,
+        ok_ord = (ok_ord and good) if ok_ord is not None else (False if not good else None)
+    chk.ob('C06-f', 'D-order', fd.key, 'group extent = boundary(group) computed after the group was extended',
+           (ok_ord and n_ord > 0) if ok_ord is not None else None,
            det_ord or 'the extent of a merged group is not the bounding box of all its members', fd.loc())
-    ok_fin = bool(final) and all(root_sym(p.ret) == 'fields' or (isinstance(p.ret, Poly) and p.ret.single_atom() is not None
-                                                               and p.ret.single_atom()[0] in ('loop', 'sym')) for p in final)
+    params_ = set(fd.param_names())
+    ok_fin = bool(final) and all(root_sym(p.ret) in params_ | {'fields'} or (isinstance(p.ret, Poly) and p.ret.single_atom() is not None
+                                                                             and p.ret.single_atom()[0] in ('loop', 'sym')) for p in final)
     chk.ob('C06-f', 'structural', fd.key, 'returns only after a full scan without intersection', ok_fin,
            '' if ok_fin else f'{len(final)} non-recursive exits', fd.loc())
     fr = repo.func('field.reduce')
